@@ -270,6 +270,11 @@ func jobSeq(j *jobCtx) {
 		s, e := tour(u, j.maxStates())
 		j.states += s
 		j.edges += e
+		// (1b) float elements with both zeros, sorted by comparators on their codes (the natural one is IEEE totalOrder)
+		uz := &seqUniverse{kind: k, vals: []int{1, 2, 3}, maxLen: 3, argLen: 2, cmps: []string{"nat", "rev", "natx"}, zeros: true}
+		s, e = tour(uz, j.maxStates())
+		j.states += s
+		j.edges += e
 		// (2) capacity thresholds of the array list: one value, longer lists
 		u2 := &seqUniverse{kind: k, vals: []int{1}, maxLen: 17, argLen: 3, cmps: []string{"nat"}, capOnly: true}
 		if !j.quick() {
@@ -297,6 +302,10 @@ func jobQue(j *jobCtx) {
 		bigQue(j, k)
 		scaleQue(j, k)
 		churnQue(j, k)
+		if k == "circularbuffer" {
+			ringGrowth(j)
+			ringZeroSize(j)
+		}
 		caps := []int{0}
 		if k == "circularbuffer" {
 			for _, bad := range []int{0, -1, -1 << 40} {
